@@ -119,9 +119,15 @@ func (w *world) runLife(li int, l *lifetime) {
 	s.Quiesce()
 	// accounting for the waste bound
 	sort.Slice(got, func(i, j int) bool { return got[i] < got[j] })
+	inflight := uint64(0) // Next calls that never returned (crash): their numbers are assigned but unobserved
+	for _, n := range nexts {
+		if n.ret == 0 {
+			inflight++
+		}
+	}
 	if len(got) > 0 {
 		first := got[0]
-		limit := w.allowance
+		limit := w.allowance + inflight
 		if w.anyRet {
 			limit += w.maxRet + 1
 		}
@@ -143,12 +149,6 @@ func (w *world) runLife(li int, l *lifetime) {
 	}
 	// clean end: some successful Release was invoked after every Next call of the lifetime had returned
 	clean := false
-	inflight := uint64(0)
-	for _, n := range nexts {
-		if n.ret == 0 {
-			inflight++
-		}
-	}
 	if !w.crashed {
 		for _, r := range releases {
 			ok := true
